@@ -91,6 +91,9 @@ pub struct RunEnv {
     pub intruder: Option<world::IntruderPlan>,
     /// inode tables of the machine (a second instance shares them with the running one)
     pub inodes: Option<world::Inodes>,
+    /// the disk is already full when this process starts (a second instance started by a process
+    /// that has just met ENOSPC: one disk)
+    pub disk_full: bool,
 }
 
 /// A second instance starts now, on the disk as the running instance has left it so far, and runs
@@ -116,6 +119,7 @@ pub fn run_intruder(plan: world::IntruderPlan) {
         crash: None,
         intruder: None,
         inodes: Some(outer.inodes.clone()),
+        disk_full: outer.write_faulted,
     };
     let image = outer.image.clone();
     let outer_panic = world::PANIC_INFO.with(|p| p.borrow_mut().take());
@@ -141,6 +145,14 @@ pub fn run_intruder(plan: world::IntruderPlan) {
     outer.mtimes = r.disk_after.mtimes.clone();
     outer.removed = r.disk_after.removed.clone();
     outer.clock_ns = outer.clock_ns.max(r.disk_after.clock_ns) + 1_000;
+    // one disk: if it filled up under the second instance it is full for the running one too
+    // (control `s6`, which writes the table file in place: the second instance truncated the
+    // file, met ENOSPC after 184 bytes and gave up loudly; the running instance went on writing at
+    // its own offset as if there were room, and "completed" with a hole in the table)
+    if r.stats.write_faults_injected > 0 {
+        outer.write_fault_decided = true;
+        outer.out_budget = Some(0);
+    }
     outer.event("second_instance", r.log_digest, r.events);
     outer.intruder_result = Some(Box::new(r));
     world::install(outer);
@@ -498,6 +510,10 @@ fn execute_once(
         fresh.load_disk(d);
     }
     fresh.crash = env.crash;
+    if env.disk_full {
+        fresh.write_fault_decided = true;
+        fresh.out_budget = Some(0);
+    }
     if let Some(i) = &env.inodes {
         // (the handles counted there belong to the other process and stay open throughout)
         fresh.inodes = i.clone();
@@ -776,6 +792,7 @@ pub fn execute_session(gen: Gen, image: &Arc<FsImage>, steps: &[Step], mtime_see
             crash: st.crash,
             intruder: st.intruder.clone(),
             inodes: None,
+            disk_full: false,
         };
         let r = if st.drift.is_empty() {
             execute_env(gen, image, st.mode.clone(), &env, verbose)
